@@ -32,9 +32,12 @@ def run(c):
         trace = c.replay
     else:
         r = c.mc("RouterConfig", "RouterConfigMC.quick.cfg", workers=4, timeout=600)
-        c.mc("RouterConfig", "RouterConfigMC.thorough.cfg", workers=4, timeout=600)
-        c.mc("RouterConfig", "RouterConfigMC.other.cfg", workers=4, timeout=600)
-        for v in ("swapped", "swaphop"):
+        variants = ["swapped"]
+        if c.thorough:
+            c.mc("RouterConfig", "RouterConfigMC.thorough.cfg", workers=4, timeout=600)
+            c.mc("RouterConfig", "RouterConfigMC.other.cfg", workers=4, timeout=600)
+            variants.append("swaphop")
+        for v in variants:
             b = c.tlc("RouterConfig", "RouterConfigMC.%s.cfg" % v, workers=2, timeout=600)
             if "BufferSizesReach" not in b.inv_violated:
                 raise vlib.Infra("model variant %s does not violate BufferSizesReach\n%s" % (v, b.out[-2000:]))
